@@ -688,6 +688,18 @@ func (fi *FuncInfo) errorHandled(call *ast.CallExpr, errIdx, nres int) (bool, st
 							}
 						}
 						if failing == nil {
+							// `if err == nil { … }` without else and falling through: the failing edge joins what follows
+							if q.Else == nil && !terminates(q.Body) {
+								for _, g := range flatten(q.Cond, false, q) {
+									if x, isNil, ok := fi.nilTest(g); ok && fi.varOf(x) == v && isNil {
+										for _, u2 := range fi.usesOf(v) {
+											if startOf(u2) >= endOf(q) {
+												return true, "tested; the code after the test uses the error"
+											}
+										}
+									}
+								}
+							}
 							// `if err == nil { …leave }` without else: the failing edge is what follows the if
 							for _, g := range flatten(q.Cond, true, q) {
 								if x, isNil, ok := fi.nilTest(g); ok && fi.varOf(x) == v && !isNil {
